@@ -36,7 +36,10 @@ RULE = ('case = (object configs (reentrant?, constructor timeout), fault script,
         'double injections; random longer sequences.  non-trivial (decided in Coq): >= 3 observed calls with a '
         'successful acquire and either a refusal or a second success.  Context managers entered through acquire_ctx() / '
         'with are left alternately normally and through an exception (__exit__(ValueError, ...)): both must do the same '
-        'release().  Every fault (open / flock / unlock / close) also comes in a KeyboardInterrupt flavour (a BaseException '
+        'release().  The exceptional exits rotate over ValueError, a harness BaseException that is not an Exception and '
+        'asyncio.CancelledError (caught by the harness, i.e. inside the enclosing block when nested).  A slice of the cases '
+        '(every 12th in quick, every 6th in thorough, seed-shifted, plus corpus entries) runs with descriptor 0 FREE in the '
+        'process (stdin closed, as in a daemon), so the lock file\'s descriptor is 0.  Every fault (open / flock / unlock / close) also comes in a KeyboardInterrupt flavour (a BaseException '
         'that is not an Exception; (kind, n, \'ki\') in the driver, flavour bit of the model\'s fault script): at unlock / '
         'close the library handles it like the OSError; at flock it must close the descriptor, clean up and re-raise '
         '(F9), at open clean up and re-raise - the model replays exactly that and the fd-count clause judges it.')
@@ -144,7 +147,23 @@ def mk(cfg, ops, faults=()):
 
 
 def run_impl(case):
-    return D.run_seq(case)
+    if not case.get('fd0'):
+        return D.run_seq(case)
+    # the same case in a process whose descriptor 0 is free (stdin closed, as in a daemon): the first os.open of the
+    # case returns 0.  Done in the forked pool worker for the duration of the case only.
+    import os
+    try:
+        saved = os.dup(0)
+    except OSError:
+        saved = None
+    try:
+        if saved is not None:
+            os.close(0)
+        return D.run_seq(case)
+    finally:
+        if saved is not None:
+            os.dup2(saved, 0)
+            os.close(saved)
 
 
 def error_obs(case, o):
@@ -204,6 +223,15 @@ def corpus():
     out.append(mk(cfgN, [A(0, 0), A(1, 1, ('plain', True, TMID)), R(0, 0), A(1, 1, ('plain', True, TLONG)), R(1, 1)]))
     out.append(mk(cfgN, [A(0, 0), A(1, 1, ('ctx', True, TLONG)), A(1, 1, ('plain', True, TLONG)), R(0, 0)]))
     out.append(mk([[False, -1], [False, TLONG]], [A(0, 0), A(1, 1), A(0, 1, ('with', True, None)), R(0, 0)]))
+    # descriptor 0 free (daemonised process): the lock file's descriptor IS 0
+    out += [dict(c, fd0=True) for c in out[:4]]
+    out.append(dict(mk(cfgN, [A(0, 0, ('plain', False, None)), R(0, 0), A(1, 1, ('plain', False, None)), R(1, 1)]), fd0=True))
+    # nested with on a reentrant object: the inner block is left through a BaseException that is not an Exception
+    # (second and fourth context-manager exit of a run are exceptional: ValueError, then the harness BaseException)
+    W = ('with', True, None)
+    out.append(mk(cfgR, [A(0, 0, W), R(0, 0), A(0, 0, W), A(0, 0, W), R(0, 0), A(1, 1, ('plain', False, None)), R(0, 0)]))
+    out.append(mk(cfgR, [A(0, 0, W), A(0, 0, ('ctx', True, None)), R(0, 0), A(0, 0, W), R(0, 0),
+                         A(1, 1, ('plain', False, None)), R(0, 0), R(0, 0)]))
     return out
 
 
@@ -261,6 +289,9 @@ def gen_exhaustive(tier, seed):
     with mp.get_context('fork').Pool(C.NPROC) as pool:
         for cs in pool.map(_fault_cases, jobs, chunksize=8):
             out += cs
+    # a slice of all of the above once more with descriptor 0 free in the process (the first os.open gets fd 0)
+    k = 12 if tier == 'quick' else 6
+    out += [dict(c, fd0=True) for i, c in enumerate(out) if i % k == seed % k]
     return out
 
 
